@@ -261,8 +261,18 @@ func init() {
 		"(*database/ffldb.db).begin":             "contract: a transaction holds closeLock (read) for its lifetime; released by transaction.close",
 	}
 	for id, pkgs := range map[string][]string{
+		"C01": {btcd + "/blockchain"},
 		"C02": {btcd + "/blockchain"},
 		"C03": {btcd + "/blockchain"},
+		"C04": {btcd + "/blockchain"},
+		"C06": {btcd + "/txscript/v2"},
+		"C07": {btcd + "/txscript/v2"},
+		"C09": {btcd + "/blockchain"},
+		"C12": {btcd + "/blockchain", btcd + "/mining"},
+		"C13": {btcd + "/blockchain"},
+		"C14": {btcd + "/blockchain"},
+		"C15": {btcd + "/blockchain"},
+		"C20": {btcd + "/btcutil/v2/bloom"},
 		"C05": {btcd + "/database/ffldb"},
 		"C10": {btcd + "/mempool"},
 		"C17": {btcd + "/blockchain"},
